@@ -38,6 +38,10 @@ def shards(tier):
         for a in [x for x in alignsweep.strings(sc["triple4_alpha"], 4, 4) if alignsweep.canonical(x) == x]:
             for prefix in (True, False):
                 out.append(dict(kind="triples4", first=a, prefix=prefix, tier=tier))
+    # operation sequences of depth two on one index object: every ordered pair of reads (N reads included) consecutively
+    for seqs in (("AAA", "AAC"), ("ACG", "AACA"), ("ACGA", "ACGT", "AGGT")):
+        for prefix in (True, False):
+            out.append(dict(kind="history", seqs=seqs, prefix=prefix, tier=tier, first=None))
     # lengths at which an absolute error count k, stored as the rate k/L, comes back as int(rate * L) == k - 1 (47, 49),
     # with 48 as a control: index and adapters must agree on the tolerance there, too
     for L, k in ((49, 1), (49, 2), (48, 1), (48, 2)) + (((47, 3),) if tier == "thorough" else ()):
@@ -70,6 +74,51 @@ def _mutants(s, emax):
     if emax >= 4:
         out += [((i, i + 3, i + 9, i + 17), sub((i, i + 3, i + 9, i + 17))) for i in range(0, L - 17, 5)]
     return out
+
+
+def run_history(d, res):
+    """The answer of an index for a read must not depend on the reads looked up before (the index is one long-lived object per
+    run and worker).  Calls in a de Bruijn order: every ordered pair of reads occurs as two consecutive calls."""
+    from cutadapt.adapters import PrefixAdapter, SuffixAdapter, IndexedPrefixAdapters, IndexedSuffixAdapters
+
+    from .. import histsweep
+
+    V = res["viol"]
+    prefix = d["prefix"]
+    Cls = PrefixAdapter if prefix else SuffixAdapter
+    Idx = IndexedPrefixAdapters if prefix else IndexedSuffixAdapters
+    plain = list(alignsweep.strings("ACGT", 4 if d["tier"] == "thorough" else 3))
+    withn = sorted({r[:i] + "N" + r[i + 1:] for r in alignsweep.strings("ACGT", 4 if d["tier"] == "thorough" else 3, 1)
+                    for i in range(len(r))}, key=lambda x: (len(x), x))
+    withn += ["ACGN", "NCGT", "ACNT", "AANA", "NACA", "AACN", "ACGNA", "NCGTA", "ACGAN", "NGGT"]
+    R = plain + withn + [x.lower() for x in plain[5:40:3]] + ["ACGTACGTACGT", "AAAAAAAA"]
+    order = histsweep.euler(len(R))
+    tup = lambda m: None if m is None else (m.adapter.name, m.rstart, m.rstop, m.errors, m.score)
+    for rate in (0.34, 0.5):
+        for indels in (True, False):
+            mk = lambda: Idx([Cls(s_, max_errors=rate, indels=indels, name=f"a{i}") for i, s_ in enumerate(d["seqs"])])
+            try:
+                idx, base_idx = mk(), mk()
+            except ValueError:
+                continue
+            res["builds"] += 2
+            base = [tup(base_idx.match_to(r)) for r in R]
+            cfg = dict(adapters=list(d["seqs"]), rate=rate, indels=indels, end="5'" if prefix else "3'", family="history")
+            mt = idx.match_to
+            prev = None
+            bad = 0
+            for i in order:
+                got = tup(mt(R[i]))
+                if got != base[i]:
+                    bad += 1
+                    V.append(("history", "the index answers differently for a read depending on the read looked up before it",
+                              dict(cfg, read=R[i], previous_read=None if prev is None else R[prev], answer=got, standalone=base[i])))
+                    if bad > 3:
+                        break
+                prev = i
+            res["evals"] += len(order)
+            res["nontrivial"] += sum(1 for b in base if b is not None)
+    return res
 
 
 def run_rounding(d, res):
@@ -180,7 +229,7 @@ def run_shard(d):
                                    MultipleAdapters)
 
     sc = _scope(d["tier"])
-    nmax = sc["nmax"] if d["kind"] in ("pairs", "rounding") else sc["triple_nmax"]
+    nmax = sc["nmax"] if d["kind"] in ("pairs", "rounding", "history") else sc["triple_nmax"]
     rates = sc["rates"] if d["kind"] == "pairs" else sc["triple_rates"]
     rs, nplain = _reads(nmax)
     reads = rs.reads
@@ -192,6 +241,8 @@ def run_shard(d):
     V = res["viol"]
     if d["kind"] == "rounding":
         return run_rounding(d, res)
+    if d["kind"] == "history":
+        return run_history(d, res)
     case_nmax = 4
     first = d["first"]
     if d["kind"] == "pairs":
@@ -307,7 +358,8 @@ def run(tier):
                     "triples of equal-length strings; x 5-6 error rates (allowed errors 0-3, differing between adapters of different "
                     "length) x indels on/off x anchored 5'/3' x ALL reads over ACGT up to the stated length + reads with one N, each also in lower and "
                     "mixed case; + three adapters of lengths 47-49 with ABSOLUTE error counts (where k/L*L truncates to k-1) against every "
-                    "0..k+1-substitution neighbour pattern listed in the source; "
+                    "0..k+1-substitution neighbour pattern listed in the source; + every ORDERED PAIR of ~700 reads (plain, one N, lower case) "
+                    "as consecutive look-ups in one index object (three adapter sets); "
                     "non-trivial = at least one adapter occurs within tolerance at the anchored end",
                     True, extra=dict(scope=_scope(tier)))
 
@@ -323,6 +375,16 @@ def replay(path):
     Cls = PrefixAdapter if prefix else SuffixAdapter
     ads = [Cls(s, max_errors=c.get("max_errors", c["rate"]), indels=c["indels"], name=f"a{i}") for i, s in enumerate(c["adapters"])]
     idx = (IndexedPrefixAdapters if prefix else IndexedSuffixAdapters)(ads)
+    if v["sig"].split(":")[1] == "history":
+        g = lambda m: None if m is None else (m.adapter.name, m.rstart, m.rstop, m.errors)
+        alone = g(idx.match_to(c["read"]))
+        idx2 = (IndexedPrefixAdapters if prefix else IndexedSuffixAdapters)(
+            [Cls(s, max_errors=c["rate"], indels=c["indels"], name=f"a{i}") for i, s in enumerate(c["adapters"])])
+        if c.get("previous_read") is not None:
+            idx2.match_to(c["previous_read"])
+        after = g(idx2.match_to(c["read"]))
+        print("standalone:", alone, " after", repr(c.get("previous_read")), ":", after)
+        return 0 if alone == after else 1
     if v["sig"].split(":")[1] == "case":
         g = lambda m: None if m is None else (m.adapter.name, m.rstart, m.rstop, m.errors)
         up, lo = g(idx.match_to(c["read"].upper())), g(idx.match_to(c["read"]))
